@@ -68,7 +68,18 @@ Definition py_eq (a b : key) : bool :=
     end
   end.
 
+Definition is_b (k : key) : bool := match k with KBool _ => true | _ => false end.
 Definition same_key_impl (a b : key) : bool :=
+  if is_s a then (if is_s b then content a =? content b else false)
+  else if is_s b then false
+  else if float_nan a then float_nan b
+  else if xorb (is_q a) (is_q b) then false
+  else if xorb (is_b a) (is_b b) then false
+  else if is_bin a && is_bin b && negb (eqb (bin_hex a) (bin_hex b)) then false
+  else py_eq a b.
+
+(* before the repair of C15-key-boolean-integer: no test of the boolean type (Python True == 1) *)
+Definition same_key_old_bool (a b : key) : bool :=
   if is_s a then (if is_s b then content a =? content b else false)
   else if is_s b then false
   else if float_nan a then float_nan b
